@@ -133,7 +133,13 @@ fn judge_msin(msin: u8, fill: usize, loc: &mut Local) {
     loc.transitions += 2;
     match catch(|| dlt_message(&b, None, false).map(|(rest, pm)| (rest.len(), pm))) {
         Ok(Ok((0, ParsedMessage::Item(m)))) => {
-            let e = m.extended_header.as_ref().expect("ext");
+            let e = match m.extended_header.as_ref() {
+                Some(e) => e,
+                None => {
+                    loc.violation("MSIN in a message decodes wrongly", format!("message with MSIN {:#04x} (HTYP 0x21: extended header announced) is returned without an extended header; bytes {}", msin, hex(&b)), details());
+                    return;
+                }
+            };
             if e.message_type != expect || e.verbose != verbose || e.application_id != app_text || e.context_id != ctx_text || e.argument_count != 0 {
                 loc.violation("MSIN in a message decodes wrongly", format!("MSIN {:#04x} in a message decoded to {:?} verbose={} noar={} app={:?} ctx={:?}, expected {:?} verbose={} noar=0 app={:?} ctx={:?}", msin, e.message_type, e.verbose, e.argument_count, e.application_id, e.context_id, expect, verbose, app_text, ctx_text), details());
                 return;
